@@ -721,7 +721,11 @@ Section World.
         | Err e => Err EInvalidValue
         | Unmodelled => Unmodelled
         end
-      | _ => Ok (setting1, pval_has_custom raw)      (* already an object (wrapped by a class __init__) *)
+      | _ =>
+        (* already an object (wrapped by the class __init__): MarkingProperty.clean on an instance *)
+        if vr_marking_flag vr then
+          (if negb allow && pval_has_custom raw then Err EInvalidValue else Ok (setting1, pval_has_custom raw))
+        else Ok (setting1, false)
       end
     end.
 
